@@ -1,6 +1,6 @@
 """C04 — the ring is a correct SPSC channel on every schedule (C11 release/acquire)."""
 import os, subprocess
-import gen_ringoff
+import gen_ringoff, gen_ringorders
 from vlib import REPO, VERIF, FEATURES, sh
 
 def build(ck):
@@ -28,12 +28,41 @@ def run(ck):
                       "plus return value and both heads. A two-thread soak run checks the byte stream on this hardware (support only).")
     ck.assumptions += ["C11 release/acquire fragment rendered as the view-based machine of Model/RingRA.lean (single-writer atomics, stale acquire loads, position-based happens-before); no relaxed accesses or fences in the code (a change there changes the log)",
                        "zix_ring_reset and zix_ring_mlock are documented as not thread-safe and are not part of the concurrent programs",
-                       "clang 14's ThreadSanitizer pass reports every memory access of ring.c that is not provably thread-local"]
-    if not ck.build_driver(): return
-    if not ck.prove():
-        ck.report_proof_failure("theorems about the SPSC ring machine no longer build")
+                       "clang 14's ThreadSanitizer pass reports every memory access of ring.c that is not provably thread-local",
+                       "Model/RingRAX.lean (vector-clock happens-before, relaxed accesses publish/acquire nothing) is only the search engine for a failing schedule when the orders change; it carries no theorem"]
     exe = build(ck)
     if not exe: return
+    try:
+        ck.write_generated("RingOrders.lean", gen_ringorders.generate(exe, ck.work))
+    except Exception as e:
+        ck.machinery_error("translator failed: %r" % (e,)); return
+    if not ck.build_driver(): return
+    explore_line = "explore observed 300 300"
+    if ck.replay and "explore " in open(ck.replay if os.path.isabs(ck.replay) else os.path.join(VERIF, ck.replay)).read():
+        sp = ck.write_script("explore.script", [explore_line])
+        print("REPLAY explorer with the memory orders of the current tree: " + " ".join(ck.run_model("c04", sp, [])))
+    if not ck.prove():
+        # the orders compiled into ring.c are not the proved ones (or a theorem broke): search the happens-before machine
+        # with the observed orders for a schedule with a data race or a wrong delivery
+        sp = ck.write_script("explore.script", [explore_line])
+        res = ck.run_model("c04", sp, [])
+        found = res and res[0].startswith("explore found")
+        what = "theorems about the SPSC ring machine no longer build (ring_orders_as_proved: the memory orders compiled into ring.c are regenerated on every run)"
+        if found:
+            orders = open(os.path.join(VERIF, "lean/ZixModel/Generated/RingOrders.lean")).read()
+            ck.report_proof_failure(what, found_input_text="# schedule found by the happens-before machine Model/RingRAX.lean run with the memory orders observed in ring.c\n"
+                                    "# (each step: W/R = writer/reader thread moves; the digit = how many stores past its view an atomic load returns)\n"
+                                    "# replay: bin/check C04 --replay <this file>\n#--- script\n" + explore_line + "\n#--- result\n# " + res[0] + "\n#--- observed orders\n"
+                                    + "\n".join("# " + l for l in orders.splitlines()))
+        else:
+            ck.report_proof_failure(what)
+    else:
+        # sanity of the search engine: with the proved orders it must find nothing (consistent with spsc_race_free)
+        sp = ck.write_script("explore.script", ["explore 111111111 300 300"])
+        res = ck.run_model("c04", sp, [])
+        if res != ["explore none"]:
+            ck.machinery_error("the happens-before search reports a violation under the proved memory orders: %r" % (res,)); return
+        ck.cov["evaluations"] += 4 * 300
     sizes = [1, 2, 4, 8, 16] if ck.tier == "quick" else [1, 2, 3, 4, 8, 16, 32, 64]
     hist = []
     for N in sizes:
